@@ -274,12 +274,10 @@ func StartExternalDirk(ctx context.Context, log *Log, mode string, binary string
 	if mode == "samechain" || mode == "foreignchain" {
 		serverPEM = append(append([]byte{}, serverPEM...), issuer.CAPEM...)
 	}
-	l, err := net.Listen("tcp", "127.0.0.1:0")
+	addr, err := FreeAddr("127.0.0.1")
 	if err != nil {
 		return nil, err
 	}
-	addr := l.Addr().String()
-	_ = l.Close()
 	files := map[string][]byte{"server.crt": serverPEM, "server.key": keyPEM(skey), "ca.crt": pki.CAPEM, "pass.txt": []byte("pass")}
 	for n, b := range files {
 		if err := os.WriteFile(filepath.Join(base, n), b, 0o600); err != nil {
